@@ -93,6 +93,7 @@ UNITS['bqmf1_2'] = dict(wrapper='w_cq.cpp', mode='lcs', unroll=1, cxxflags=['-DE
                         exceptions=True, allow_atomic=['__clang_call_terminate'], lvalpath=True, immutable=IMMB, threads=thrb('vp_thr_q', 2))
 UNITS['bqmx1_2'] = dict(wrapper='w_cq.cpp', mode='lcs', unroll=1, cxxflags=['-DELEM=1', '-DBOUNDED=1', '-DREALCPP=2', '-DABORTS=1', '-D__TBB_BUILD=1'], cut=MONCUT, devirt=['sleep_node', 'delegated_function'], prune=True,
                         exceptions=True, allow_atomic=['__clang_call_terminate'], lvalpath=True, immutable=IMMB, threads=thrb('vp_thr_q', 2))
+NEGAB = dict(bsc(2, 0, 0, (BPOP, N), (POP, ABORT)), PREBLOCK=1, POST_PUSH=2)
 HARNESSES = [
   dict(name='cq_big_2t', unit='cq1_2', harness='h_cq.c', defines={'NT': 2, 'ITEMS_PER_PAGE': 1},
        scenarios_quick=R(3, ONE_OP[:3]) + R(2, ONE_OP[3:5]), scenarios_thorough=R(4, ONE_OP[:3]) + R(3, ONE_OP[3:]) + R(3, TWO_OP[:4]) + R(2, TWO_OP[4:]),
@@ -116,9 +117,11 @@ HARNESSES = [
             'the failing push reports the exception, its slot becomes an invalid entry that pops skip, no other item is lost/duplicated, history linearizable with the failed push having no effect: ' + DESC,
        bounds={'threads': 2, 'ops_per_thread': '<=2', 'faults': '<=1 constructor exception at any call index', 'free_rounds': 'ROUNDS of the scenario', 'forced_rounds': 2, 'spin_unroll': 1}),
   dict(name='bq_abort_2t', unit='bqmx1_2', harness='h_cq.c', defines={'NT': 2, 'ITEMS_PER_PAGE': 1, 'BOUNDED': 1, 'REALCPP': 2, 'ABORTS': 1},
-       scenarios_quick=R(2, [dict(bsc(1, 0, 0, (BPOP, N), (ABORT, N)), PREBLOCK=1)]) + R(1, [dict(bsc(1, 1, 0, (PUSH, N), (ABORT, POP)), PREBLOCK=1)]),
+       # NEGAB: pop() sleeps with its ticket taken (negative size); the other thread calls try_pop (must say empty at once), then abort(); afterwards
+       # (sequential post-phase) push(0x3000), push(0x3001), and the drain's try_pops: the sleeper gets user_abort and gives its ticket back, the values come out in order
+       scenarios_quick=R(2, [dict(bsc(1, 0, 0, (BPOP, N), (ABORT, N)), PREBLOCK=1)]) + R(1, [dict(bsc(1, 1, 0, (PUSH, N), (ABORT, POP)), PREBLOCK=1)]) + R(1, [NEGAB]),
        scenarios_thorough=R(2, [dict(bsc(1, 0, 0, (BPOP, N), (ABORT, N)), PREBLOCK=1), dict(bsc(1, 1, 0, (PUSH, N), (ABORT, POP)), PREBLOCK=1),
-                                bsc(1, 0, 0, (BPOP, N), (ABORT, PUSH)), bsc(1, 1, 0, (PUSH, N), (ABORT, BPOP))]),
+                                bsc(1, 0, 0, (BPOP, N), (ABORT, PUSH)), bsc(1, 1, 0, (PUSH, N), (ABORT, BPOP)), dict(NEGAB, ROUNDS=2)]),
        cbmc=CB, timeout=1500, mem_gb=8, thorough_override={'timeout': 5400}, native_cflags=NCF,
        desc='concurrent_bounded_queue::abort (unit compiled WITH exceptions): a caller sleeping in push/pop is woken with user_abort (blocked-state oracle), an aborted pop gives its ticket back, '
             'an aborted push leaves an invalid entry that later pops skip; user_abort only for calls overlapping an abort(); no item lost or duplicated, history of the successful calls linearizable. '
